@@ -9,7 +9,7 @@ import Sonic.Lemmas.WsAsyncStep
 /-- close a goal that is a disjunction one of whose members is a hypothesis -/
 syntax "mem_or" : tactic
 macro_rules
-  | `(tactic| mem_or) => `(tactic| first | assumption | (apply Or.inl; mem_or) | (apply Or.inr; mem_or))
+  | `(tactic| mem_or) => `(tactic| first | assumption | rfl | trivial | (apply Or.inl; mem_or) | (apply Or.inr; mem_or))
 
 namespace Sonic.Model.WsAsync
 
